@@ -8,8 +8,10 @@ from cxx2c import Ty
 
 
 class MSpec:
-    def __init__(self, name, mode, ensures, requires=None, arrays=None, models=None, timeout=60, tier="quick", known=None, alias=None, tol=1e-4, nonneg=False, ranges=False):
+    def __init__(self, name, mode, ensures, requires=None, arrays=None, models=None, timeout=60, tier="quick", known=None, alias=None, tol=1e-4, nonneg=False, ranges=False, replay_native=None, exact_f32=False):
         self.ranges = ranges
+        self.exact_f32 = exact_f32
+        self.replay_native = replay_native
         self.name, self.mode, self.ensures = name, mode, ensures
         self.requires = requires
         self.arrays = arrays or {}
@@ -75,6 +77,7 @@ def run_mjob(job):
                reason="", is_lemma=False, replaced=[], functions=[ms.name], backend="z3-" + ms.mode, solver_time=0.0)
     try:
         ev = Evaluator(U.tr, ms.mode, models=dict(U.math_models, **ms.models), ranges=ms.ranges)
+        ev.exact_f32 = getattr(ms, 'exact_f32', False)
         st = State()
         f, args, objs = setup_call(U, ms, ev, st)
         pre = st.fork()
@@ -87,8 +90,9 @@ def run_mjob(job):
             r = ms.requires(P)
             assumptions = list(r) if isinstance(r, (list, tuple)) else [r]
         goals = []
+        G = {k[1]: v for k, v in st.heap.items() if k[0] == ev.globals.id}   # ghost/global variables written by models
         for lab, fn in ms.ensures.items():
-            g = fn(P, RET, Q)
+            g = fn(P, RET, Q, G) if fn.__code__.co_argcount >= 4 else fn(P, RET, Q)
             if isinstance(g, (list, tuple)):
                 g = z3.And(*g)
             goals.append(("ensures", lab, g))
